@@ -93,6 +93,9 @@ func Parse(in *bytes.Buffer) (defs []*RouteDef, err error) {
 		}
 		defs = append(defs, def)
 	}
+	if err := scanner.Err(); err != nil {
+		return nil, fmt.Errorf("line %d: %s", i+1, err)
+	}
 	return defs, nil
 }
 
